@@ -6,7 +6,8 @@
 From Coq Require Import ZArith QArith List Lia.
 From DV Require Import Base.Field Base.LinAlg Base.QcInst Model.Enums Model.Homog Model.Grid Model.Lattice
   Gen.GridT Gen.GridCoords Proofs.C01Grid Proofs.C01Laws Proofs.C01TwoA Proofs.C01TwoB Proofs.C01TwoC
-  Proofs.C01TwoGrids Proofs.C01Cube Proofs.C01Lattice Model.Sampler Model.SamplerQc Proofs.C01Sample.
+  Proofs.C01TwoGrids Proofs.C01Cube Proofs.C01Lattice Model.Sampler Model.SamplerQc Proofs.C01Sample
+  Gen.GridCtor Proofs.C02Itk.
 Import ListNotations.
 
 Section Statements.
@@ -125,6 +126,15 @@ Theorem C01_anchor_origin_center :
   /\ gen_pts D GRID WORLD (vtab D n) (vtab D s) (vtab D c) (tab D D d)
        (vscale half (vsub (vtab D n) (vones D))) = vtab D c.
 Proof. intros D n s c d HD H. split; [exact (anchor_origin K Kf Kc D n s c d HD H) | exact (anchor_center K Kf Kc D n s c d HD H)]. Qed.
+
+(* ... also for a grid CONSTRUCTED from an origin (Grid(origin=o), from_sitk, from_reader, crop/pad-derived grids): the
+   stored center is such that index 0 lands on the given origin *)
+Theorem C01_anchor_origin_constructor :
+  forall (D : nat), D = 2%nat \/ D = 3%nat ->
+  forall (n s o : nat -> K) (d : nat -> nat -> K),
+  let Cn := gen_center_of_origin D (vtab D n) (vtab D s) (tab D D d) (vtab D o) in
+  gen_pts D GRID WORLD (vtab D n) (vtab D s) Cn (tab D D d) (vzero D) = vtab D o.
+Proof. intros D HD n s o d. exact (proj2 (proj2 (origin_roundtrip K Kf Kc D HD n s o d))). Qed.
 
 Theorem C01_anchor_cube_corners :
   forall (D : nat) (n s c : nat -> K) (d : nat -> nat -> K), D = 2%nat \/ D = 3%nat -> wf D n s d ->
